@@ -16,6 +16,15 @@ def ragged (fs : List (Py.NdArr Rat)) : List (Py.NdArr Rat) :=
   | [] => []
   | f :: r => (Py.NdArr.ofFlat (f.shape ++ [1]) f.toFlat f.dtype :: r).reverse
 
+/-- `a:b:c` with `n` = None -/
+def parseSlice (t : String) : Option Py.Slice :=
+  let f (x : String) : Option (Option Int) := if x = "n" then some none else x.toInt?.map some
+  match t.splitOn ":" with
+  | [a, b, c] => match f a, f b, f c with
+    | some x, some y, some z => some (x, y, z)
+    | _, _, _ => none
+  | _ => none
+
 def showWrite (w : Py.TifWrite Rat) : String :=
   s!"{showArr w.frame};{if w.contiguous then 1 else 0};{w.photometric};{String.ofList w.axes}"
 
@@ -53,6 +62,21 @@ def handleImgIo2 (what : String) (args : List String) : String :=
           match tiff_init (K := Rat) Py.ratFld castRat w ax rd with
           | none => "E"
           | some (ws, r) => s!"{Proto.showInts ws};{showArr r}"
+    | "ggetk" =>
+      -- `ggetk … ints=i[,j[,k]]` → the GENERATED `NDArrayImageStack.__getitem__` for an int / int-pair / int-triple key
+      match Proto.argInts args "ints" with
+      | some [i] => opt (ndarray_getitem_int (K := Rat) a i)
+      | some [i, j] => opt (ndarray_getitem_int2 (K := Rat) a (i, j))
+      | some [i, j, k] => opt (ndarray_getitem_int3 (K := Rat) a (i, j, k))
+      | _ => "bad-args"
+    | "ggets" =>
+      -- `ggets … sl=a:b:c[/a:b:c…]` (`n` = None) → the GENERATED `__getitem__` for a slice / a tuple of 2–4 slices
+      match ((Proto.arg args "sl").getD "").splitOn "/" |>.mapM parseSlice with
+      | some [s1] => opt (ndarray_getitem_slice (K := Rat) a s1)
+      | some [s1, s2] => opt (ndarray_getitem_slice2 (K := Rat) a (s1, s2))
+      | some [s1, s2, s3] => opt (ndarray_getitem_slice3 (K := Rat) a (s1, s2, s3))
+      | some [s1, s2, s3, s4] => opt (ndarray_getitem_slice4 (K := Rat) a (s1, s2, s3, s4))
+      | _ => "bad-args"
     | "gfull" => opt (imagestack_get_full (K := Rat) a)
     | "ggrayget" =>
       -- `ggrayget … key=i,j,k fuel=n` → the GENERATED `GrayImageStack.__getitem__` with recursion depth `n` (`E` = no result)
